@@ -35,7 +35,26 @@ EXPECT_PROBES = ["flock_contended", "lock_timeout", "holder_died", "lock_takeove
                  "s3_lock_contended"]
 
 
+def gen_renewal_race(rng: random.Random) -> dict:
+    """Directed profile: a holder whose whole process is paused past its lease resumes (and its heartbeat renews)
+    while a contender's takeover PUT - issued after a HEAD that saw the lease lapsed - is still in flight."""
+    # timeline: c0 acquires at 0, its heartbeat renews at ~20; c0's process is paused at its 2nd ownership read
+    # (~25 s) for `pause` seconds, so the lease (counted from the renewal at ~20) lapses at ~80 while it sleeps;
+    # c1 starts polling shortly before that, its takeover PUT is stalled in flight, c0 resumes and renews first
+    pause = rng.choice([58.0, 62.0, 66.0, 75.0])
+    acts = [{"name": "c0", "proc": "p0", "cycles": [{"timeout": 30.0, "hold": 300.0, "pre": 0.0, "poll": 25.0}]},
+            {"name": "c1", "proc": "p1", "cycles": [{"timeout": 100.0, "hold": rng.choice([1.0, 30.0]),
+                                                     "pre": rng.choice([70.0, 78.0, 79.5]), "poll": 10.0}]}]
+    faults = [{"kind": "pause", "actor": "c0", "op": "get", "cls": "LOCK", "nth": 2, "dt": pause},
+              {"kind": "stall", "actor": "c1", "op": "put", "cls": "LOCK", "detail": {"if_match": True}, "nth": 1,
+               "dt": rng.choice([1.0, 2.0, 5.0, 10.0])}]
+    return {"mode": "s3cas", "policy": common.gen_policy(rng, 600), "faults": faults, "actors": acts,
+            "profile": "renewal_race"}
+
+
 def gen(rng: random.Random, tier: str, idx: int) -> dict:
+    if idx % 12 == 7:
+        return gen_renewal_race(rng)
     mode = ["filelock", "s3cas", "filelock", "s3cas", "commit", "s3poll"][idx % 6]
     n = rng.randint(2, 3)
     plan: Dict[str, Any] = {"mode": mode, "policy": common.gen_policy(rng, 600), "faults": []}
@@ -322,6 +341,12 @@ def _check_s3cas(sim, ev, V, paused):
                 V.append({"clause": "K.takeover_live_lease",
                           "msg": f"{who} took over {victim}'s lock although at its HEAD the lease was live "
                                  f"(true age {tnow - mtime:.1f}s <= {LEASE}s)"})
+            elif wv["prev_mtime"] is not None and wv["tt"] - wv["prev_mtime"] <= LEASE:
+                # the lease had lapsed at the HEAD, but the holder renewed (same bytes => same ETag) before the
+                # takeover PUT, which the If-Match did not notice
+                V.append({"clause": "K.takeover_after_renewal",
+                          "msg": f"{who}'s takeover PUT replaced {victim}'s lock {wv['tt'] - wv['prev_mtime']:.2f}s after {victim} "
+                                 f"had renewed it (the renewal landed between {who}'s HEAD and PUT and did not change the ETag)"})
         else:
             # created on an absent key: was a live holder's object deleted by somebody else?
             last_del = [d for d in dels if d[0] < wv["g"]]
